@@ -21,9 +21,9 @@ ALL = ["back", "back_fct", "back11", "mp11", "mp11_fct", "mp11_fpa"]
 EVENTS = dict(throws=0.1, subs=0.4, enq=0.2, drain=0.1, restart=0.1, startsubs=0.0, maxcalls=8, copy=0.15, ninst=3, destroy=0.1)
 
 PLAN = {
- "C01": dict(machines=["flat", "ortho", "hier2", "hier3", "kleene"], profile=PLAIN, mc=MC_PLAIN, invariants=["P_C01"],
+ "C01": dict(suite=True, machines=["flat", "ortho", "hier2", "hier3", "kleene"], profile=PLAIN, mc=MC_PLAIN, invariants=["P_C01"],
              title="enabled-transition selection"),
- "C02": dict(machines=["flat", "hier2", "hier3", "pseudo", "histA"], profile=PLAIN, mc=MC_PLAIN, invariants=["P_C02"],
+ "C02": dict(suite=True, machines=["flat", "hier2", "hier3", "pseudo", "histA"], profile=PLAIN, mc=MC_PLAIN, invariants=["P_C02"],
              title="transition execution order"),
  "C03": dict(machines=["hier3", "histN", "histS", "pseudo", "compl", "ortho"], profile=RESTART, mc=MC_RESTART, invariants=["P_C03"],
              title="active configuration integrity"),
@@ -31,13 +31,13 @@ PLAN = {
              title="run to completion / FIFO / exactly once"),
  "C05": dict(machines=["defer", "defer2"], profile=DEFER, mc=dict(MC_QUEUE, maxcalls=4, budget=0, dirops=(), direvs=()), invariants=["P_C05"],
              title="deferred events"),
- "C06": dict(machines=["flat", "ortho", "hier2", "hier3"], profile=PLAIN, mc=MC_PLAIN, invariants=["P_C06"],
+ "C06": dict(suite=True, machines=["flat", "ortho", "hier2", "hier3"], profile=PLAIN, mc=MC_PLAIN, invariants=["P_C06"],
              title="orthogonal regions, result, no_transition"),
- "C07": dict(machines=["hier2", "hier3"], profile=PLAIN, mc=MC_PLAIN5, invariants=["P_C01", "P_C02", "P_C07"],
+ "C07": dict(suite=True, machines=["hier2", "hier3"], profile=PLAIN, mc=MC_PLAIN5, invariants=["P_C01", "P_C02", "P_C07"],
              title="hierarchy"),
- "C08": dict(machines=["histN", "histA", "histS"], profile=PLAIN, mc=MC_PLAIN5, invariants=["P_C08"],
+ "C08": dict(suite=True, machines=["histN", "histA", "histS"], profile=PLAIN, mc=MC_PLAIN5, invariants=["P_C08"],
              title="history policies"),
- "C09": dict(machines=["pseudo", "histS"], profile=PLAIN, mc=MC_PLAIN5, invariants=["P_C09"],
+ "C09": dict(suite=True, machines=["pseudo", "histS"], profile=PLAIN, mc=MC_PLAIN5, invariants=["P_C09"],
              title="explicit entry, fork, entry and exit points"),
  "C10": dict(machines=["compl"], profile=dict(DEFER, subs=0.3), mc=dict(MC_QUEUE, budget=0, maxcalls=4, dirops=(), direvs=()), invariants=["P_C10"],
              title="completion transitions"),
@@ -60,11 +60,11 @@ PLAN = {
              profile=dict(PLAIN, subs=0.1, restart=0.03, saveload=0.25, copy=0.05, ninst=3, maxcalls=9),
              mc=dict(maxcalls=4, budget=0, apis=("start", "pe", "saveload"), dirops=(), direvs=(), ninst=2), invariants=["P_C16", "P_C03"],
              trace_invariants=["P_C16"], title="serialization round trip"),
- "C17": dict(machines=["ortho", "hier3", "block"], profile=dict(PLAIN, restart=0.05), mc=MC_PLAIN, invariants=["P_C17"],
+ "C17": dict(suite=True, machines=["ortho", "hier3", "block"], profile=dict(PLAIN, restart=0.05), mc=MC_PLAIN, invariants=["P_C17"],
              title="flags"),
  "C18": dict(machines=["kleene"], profile=dict(PLAIN, subs=0.2, enq=0.1, drain=0.1), mc=MC_PLAIN5, invariants=["P_C01", "P_C18"],
              title="event matching and payload"),
- "C19": dict(machines=["policy0", "policy1", "policy2", "policy3"], profile=dict(PLAIN, subs=0.1), mc=MC_PLAIN, invariants=["P_C19"],
+ "C19": dict(suite=True, machines=["policy0", "policy1", "policy2", "policy3"], profile=dict(PLAIN, subs=0.1), mc=MC_PLAIN, invariants=["P_C19"],
              title="active-state-switch policy"),
 }
 
